@@ -53,6 +53,18 @@ CHECKS.update({
    technique="Coq proof (lia over generated bounds) about hand-written conversion models + exhaustive boundary sweep through all entry points",
    ref="DESIGN.md section 6 C13"),
 })
+CHECKS.update({
+ "C01": dict(
+   text="Theorems C01_refines (for every history of the 28 public calls and every node-size setting ml>=1, mi>=2: every return value / KeyError and the final ordered contents of the B+tree model equal those of the reference sorted association list), C01_keys_sorted (keys unique and ascending in every reachable state), C01_raise_preserves (a call raising KeyError leaves the contents unchanged), C01_leaf (Bucket/Set insert/delete = reference insert/remove). The model is compared with the C and the Python implementation on random histories for all 22 families x 4 kinds: every output, final contents AND final shape (separators, leaf boundaries), at node sizes reaching 8 levels.",
+   note="Trusted: Coq kernel; Model/RTree.v + Model/TreeRun.v tied by correspondence; keys as Z (order-isomorphic family adapters incl. None-smallest object keys and integer extremes); has_key compared by truth value; update()'s return value not compared; C01_refines assumes that a history using the set-only operator &= stores only the value 0 (true for sets). Print Assumptions: closed.",
+   technique="Coq proof of refinement (B+tree model -> sorted association list) by induction over histories and tree structure + differential correspondence incl. shape",
+   ref="DESIGN.md section 6 C01"),
+ "C03": dict(
+   text="Theorems C03_init, C03_step, C03_reachable, C03_set, C03_del: the invariant Inv (no empty node, uniform child kinds and depth, keys strictly ascending, every key and separator inside the interval its ancestors promise, exact separators, leaf size <= max_leaf_size, interior size <= max_internal_size, root < 2*max_internal_size) holds initially and is preserved by every public call, for all node sizes ml>=1, mi>=2; with C18_accepts_api_trees both checkers accept every such tree. The harness checks after EVERY call of random histories: _check(), BTrees.check.check(), an independent walker (chain = descent order, bounds, sizes), and shape equality with the model, class-level and subclass-level size settings.",
+   note="Trusted: Coq kernel; model tied by per-step shape correspondence. The leaf chain of the model is the in-order leaf sequence by construction: that the implementation's next/firstbucket pointers realise it is checked by the correspondence run, not proved (partial for the pointer clause). Print Assumptions: closed.",
+   technique="Coq invariant proof over the B+tree model (insert/split/root split/delete/unlink) + per-step differential correspondence",
+   ref="DESIGN.md section 6 C03"),
+})
 NOT_YET = {}
 
 def main():
